@@ -158,13 +158,25 @@ func runC11(r *core.Run) {
 			}
 		}
 		pre := b.Disk.Snapshot()
-		err, _ := b.Bootstrap(BootArgs{SignCN: cnPool[r.Intn(len(cnPool), "boot-cn")]})
+		bootCN := cnPool[r.Intn(len(cnPool), "boot-cn")]
+		err, _ := b.Bootstrap(BootArgs{SignCN: bootCN})
 		if err != nil {
 			r.HarnessErr = fmt.Sprintf("fault-free bootstrap of an empty store failed: %v", err)
 			return
 		}
 		r.Eventf("bootstrap order=%d writes: %s", order, writeNames(b.Disk.Log))
 		checkPrefixes(r, pre, b.Disk.Log, fmt.Sprintf("bootstrap/order=%d", order), hist)
+		// the same first bootstrap with the commit of its j-th object lost (every j)
+		for j := range b.Disk.Log {
+			lb := NewAuthority(r, cfg, seams.NewPlanNone(r))
+			lb.Order = b.Order
+			lb.Keygen.Base = b.Keygen.Base
+			lb.Disk.FailCloseN = j
+			lpre := lb.Disk.Snapshot()
+			err, _ := lb.Bootstrap(BootArgs{SignCN: bootCN})
+			r.Eventf("bootstrap order=%d lost-write #%d -> %s, durable: %s", order, j, errClass(err, false), writeNames(lb.Disk.Log))
+			checkPrefixes(r, lpre, lb.Disk.Log, fmt.Sprintf("bootstrap/order=%d/lost-write@%d", order, j), hist)
+		}
 		if order == keep {
 			a = b
 		}
@@ -199,14 +211,24 @@ func runC11(r *core.Run) {
 			// restore the key service to "before this rotation" is not possible for destroyed keys;
 			// the rotation re-creates the same key-version name, which memkm overwrites
 			lw.Disk.FailCloseN = j
+			// half of the time one long-lived process performs this rotation and the next one
+			lw.Persist = r.Bool("lost-write-long-lived")
 			ra3 := ra
 			ra3.Overwrite = true
 			err, _ := lw.Rotate(ra3)
-			r.Eventf("lost-write #%d: rotate -> %s, durable writes: %s", j, errClass(err, false), writeNames(lw.Disk.Log))
+			r.Eventf("lost-write #%d (long-lived=%v): rotate -> %s, durable writes: %s", j, lw.Persist, errClass(err, false), writeNames(lw.Disk.Log))
 			checkPrefixes(r, pre, lw.Disk.Log, fmt.Sprintf("rotate/lost-write@%d", j), hist)
 			if err == nil {
 				r.Probe("rotation-succeeded-despite-lost-write")
 			}
+			// ... followed by a fault-free rotation with another serial through the same authority
+			lw.Disk.FailCloseN = -1
+			pre4 := lw.Disk.Snapshot()
+			start4 := len(lw.Disk.Log)
+			lw.Now = lw.Now.Add(24 * time.Hour)
+			err4, _ := lw.Rotate(RotArgs{SerialOverride: int64(900 + i), Flags: Flags{Overwrite: r.Bool("next-overwrite")}})
+			r.Eventf("rotation after the lost write -> %s, writes: %s", errClass(err4, false), writeNames(lw.Disk.Log[start4:]))
+			checkPrefixes(r, pre4, lw.Disk.Log[start4:], fmt.Sprintf("rotate/after-lost-write@%d/long-lived=%v", j, lw.Persist), hist)
 		}
 		// A rotation cut short at a drawn strict prefix, then re-run with --overwrite from there.
 		if len(writes) > 1 && r.Chance(40, "cut-and-rerun?") {
